@@ -1,5 +1,176 @@
-//! (to be written)
-pub fn cmd(_args: &crate::Args) {
-    eprintln!("pair: not implemented yet");
-    std::process::exit(2);
+//! C18 (metamorphic, no reference model): a history and its projection onto one queue, with
+//! restarts at corresponding points, must agree on everything that queue returns.  Crash variant:
+//! process-crash images of the full history between calls and inside calls addressed to OTHER
+//! queues recover the queue exactly as the projected history has it.
+use std::path::PathBuf;
+use std::sync::Arc;
+use std::time::Duration;
+
+use serde_json::{json, Value};
+
+use crate::crash::{os_effects, recover, INIT_STEP};
+use crate::disk::{Image, OsEff};
+use crate::exec::{run_script, RunRecord};
+use crate::script::{Script, Step};
+use crate::{load_scripts, parallel, write_lines, Args, Output};
+
+fn queue_state(st: &Value, q: usize) -> Value {
+    if let Some(qs) = st.get("qs").and_then(|qs| qs.as_array()) {
+        for entry in qs {
+            if entry["q"].as_i64() == Some(q as i64) {
+                return json!({"a": 1, "recs": entry["recs"], "next": entry["next"], "last": entry["last"],
+                              "lastrec": entry["lastrec"]});
+            }
+        }
+    }
+    json!({"a": 0, "recs": [], "next": -1, "last": -1, "lastrec": [-1, -1, -1]})
+}
+
+/// Observations of queue q: one per step addressed to q and per restart.
+fn observations(record: &RunRecord, q: usize) -> Vec<Value> {
+    let mut out = Vec::new();
+    for step in &record.steps {
+        let script_step = &record.script.steps[step.idx];
+        let relevant = script_step.queue() == Some(q) || matches!(script_step, Step::Restart);
+        if !relevant {
+            continue;
+        }
+        let res = &step.end["res"];
+        let st = step.end.get("st").cloned().unwrap_or(Value::Null);
+        out.push(json!({
+            "op": step.begin["op"], "k": res["k"], "last": res["last"], "evicted": res["evicted"],
+            "qs": queue_state(&st, q),
+        }));
+    }
+    out
+}
+
+fn project(script: &Script, q: usize) -> Script {
+    let steps: Vec<Step> = script
+        .steps
+        .iter()
+        .filter(|step| step.queue() == Some(q) || matches!(step, Step::Restart | Step::Persist { .. }))
+        .cloned()
+        .collect();
+    Script {
+        name: format!("{}#q{q}", script.name),
+        policy: script.policy.clone(),
+        queues: script.queues.clone(),
+        anchors: script.anchors.clone(),
+        steps,
+    }
+}
+
+pub fn cmd(args: &Args) {
+    let scripts = Arc::new(load_scripts(args));
+    let out_dir = PathBuf::from(args.get("out", "/dev/shm/mrl-out"));
+    let output = Arc::new(Output::new(&out_dir));
+    let with_crash = args.flag("crash");
+    let deadline = Duration::from_secs(args.num("deadline", 10));
+    let max_points = args.num("max-points", 60) as usize;
+    let n = scripts.len();
+    let output_in = output.clone();
+    parallel(n, args.num("jobs", 8) as usize, &out_dir, "trace", move |job, file| {
+        let script = &scripts[job];
+        std::fs::write(
+            output_in.dir.join("scripts").join(format!("{}.json", script.name)),
+            serde_json::to_vec(script).unwrap(),
+        )
+        .unwrap();
+        let (full, runner) = run_script(script, job);
+        drop(runner);
+        output_in.add("runs", 1);
+        output_in.add("calls", full.steps.len() as u64);
+        let mut lines = vec![full.run_line.clone()];
+        if full.aborted {
+            lines.push(json!({"ev": "pair", "q": -1, "full": [], "proj": [], "aborted": 1}));
+            write_lines(file, &lines);
+            return;
+        }
+        let script_arc = Arc::new(script.clone());
+        let effects = os_effects(&full, false);
+        for q in 0..script.queues.len() {
+            if !script.steps.iter().any(|step| step.queue() == Some(q)) {
+                continue;
+            }
+            let projected_script = project(script, q);
+            let (proj, proj_runner) = run_script(&projected_script, job);
+            drop(proj_runner);
+            let full_obs = observations(&full, q);
+            let proj_obs = observations(&proj, q);
+            output_in.add("pairs", 1);
+            output_in.add("pair_observations", full_obs.len() as u64);
+            let others = script
+                .steps
+                .iter()
+                .filter(|step| step.queue().is_some() && step.queue() != Some(q))
+                .count();
+            if others > 0 {
+                output_in.add("pairs_with_other_traffic", 1);
+            }
+            output_in.sample(json!({"script": script.name, "q": q, "observations": full_obs.len(),
+                                   "calls_on_other_queues": others}));
+            lines.push(json!({"ev": "pair", "q": q, "full": full_obs, "proj": proj_obs,
+                              "aborted": proj.aborted as i64}));
+            if with_crash && script.policy.starts_with("always") && !proj.aborted {
+                // projected state of q after each full-run step index
+                let mut want_after: Vec<Value> = Vec::new();
+                let mut current = json!({"a": 0, "recs": [], "next": -1, "last": -1, "lastrec": [-1, -1, -1]});
+                let mut proj_iter = proj.steps.iter();
+                for step in &script.steps {
+                    let in_projection = step.queue() == Some(q) || matches!(step, Step::Restart | Step::Persist { .. });
+                    if in_projection {
+                        if let Some(proj_step) = proj_iter.next() {
+                            if let Some(st) = proj_step.end.get("st") {
+                                current = queue_state(st, q);
+                            }
+                        }
+                    }
+                    want_after.push(current.clone());
+                }
+                // crash points: prefixes of the OS-level effects whose in-flight call (if any) is
+                // addressed to another queue
+                let mut image = Image::default();
+                let stride = (effects.len() / max_points.max(1)).max(1);
+                for k in 0..=effects.len() {
+                    if k > 0 {
+                        image.apply(&effects[k - 1].eff, None);
+                    }
+                    if k % stride != 0 && k != effects.len() {
+                        continue;
+                    }
+                    let prev = if k > 0 { effects[k - 1].step } else { INIT_STEP };
+                    let next = if k < effects.len() { effects[k].step } else { usize::MAX - 1 };
+                    let incall = prev == next;
+                    if prev == INIT_STEP {
+                        continue;
+                    }
+                    if incall {
+                        let addressed = script.steps[prev].queue();
+                        if addressed == Some(q) || addressed.is_none() {
+                            continue;
+                        }
+                        // a write of another queue's call is not torn here; effects only
+                        if let OsEff::Write { .. } = effects[k].eff {}
+                    }
+                    // the state q must have: after the last completed step (in-flight steps on
+                    // other queues do not count)
+                    let completed = if incall { prev.checked_sub(1) } else { Some(prev) };
+                    let want = match completed {
+                        Some(idx) => want_after[idx].clone(),
+                        None => json!({"a": 0, "recs": [], "next": -1, "last": -1, "lastrec": [-1, -1, -1]}),
+                    };
+                    let recovery = recover(&script_arc, &image.process_image(), false, k as u64, deadline);
+                    output_in.add("pair_crash_points", 1);
+                    let got = if recovery.out == "ok" { queue_state(&recovery.st, q) } else { Value::Null };
+                    lines.push(json!({"ev": "pairc", "q": q, "i": prev, "incall": incall as i64, "out": recovery.out,
+                                      "got": got, "want": want}));
+                }
+            }
+        }
+        output_in.add("trace_lines", lines.len() as u64);
+        write_lines(file, &lines);
+    });
+    output.finish(json!({"cmd": "pair"}));
+    crate::exec::cleanup_scratch();
 }
